@@ -231,7 +231,12 @@ def impl_main(payload):
             self.evaluation = StubEval()
             self.diagnostics = EaDiagnostics()
 
+        mark = False
+
         def generational_step(self, population):
+            if self.mark:               # what a real algorithm's evaluation phase does
+                for p in population:
+                    p.fit_set = True
             return population
 
     def gen():
@@ -269,6 +274,28 @@ def impl_main(payload):
             isl.generational_age = c.get("isl_ages", [c["age"]] * len(c["isls"]))[k_]
             allobjs += pop
         arch.generational_age = c["age"]
+        isls_actual = None
+        if ci % 3 == 0:
+            # an earlier evolve call (a migration and one generation) lies behind this archipelago, and its individuals have been
+            # evaluated since (flags as the case prescribes): THIS call's migration must mark its participants again
+            for isl in arch.islands:
+                isl._ea.mark = True
+            try:
+                arch.evolve(1)
+            except Exception as e:  # noqa
+                viol.append("the preceding evolve(1) raised %r" % (e,))
+            for isl in arch.islands:
+                isl._ea.mark = False
+            want_flags = [fs for spec in c["isls"] for (_, fs) in spec]
+            k2 = 0
+            for isl in arch.islands:
+                for p in isl.population:
+                    p.fit_set = bool(want_flags[k2 % len(want_flags)]) if want_flags else False
+                    k2 += 1
+            arch.generational_age = c["age"]
+            for k_, isl in enumerate(arch.islands):
+                isl.generational_age = c.get("isl_ages", [c["age"]] * len(c["isls"]))[k_]
+            isls_actual = [[[p.tag, bool(p.fit_set)] for p in isl.population] for isl in arch.islands]
         sizes0 = [len(i.population) for i in arch.islands]
         flags0 = [[p.fit_set for p in i.population] for i in arch.islands]
         ids0 = [[id(p) for p in i.population] for i in arch.islands]
@@ -309,7 +336,7 @@ def impl_main(payload):
             if any(p.fit_set for p in arch.islands[k].population):
                 viol.append("individual on participating island %d still marked evaluated" % k)
                 break
-        results.append(dict(out=out, viol=viol, tape=[list(t) for t in tape]))
+        results.append(dict(out=out, viol=viol, tape=[list(t) for t in tape], isls=isls_actual))
     return dict(results=results, partners=partner_results(payload.get("orders", [])),
                 parmig=parallel_migration_runs(payload.get("parmig_runs", 0), payload.get("seed", 0)))
 
@@ -339,7 +366,7 @@ def check(rep, proof):
     pcases = [c12.gen_case(prng) for _ in range(60 if rep.tier == "quick" else 1200)]
     prc, pres, pout, _ = vlib.run_impl("c12", dict(cases=pcases, seed=rep.seed), timeout=3000)
     par = pres["migration"] if pres is not None else dict(checks=0, exchanging_ranks=0, viol=["the parallel harness crashed: %s" % pout[-400:]])
-    pairs = [(coq_case(c, r["tape"]), r["out"]) for c, r in zip(cases, results)]
+    pairs = [(coq_case(dict(c, isls=r["isls"]) if r.get("isls") is not None else c, r["tape"]), r["out"]) for c, r in zip(cases, results)]
     bad, log = vlib.coq_compare("c11", HEADER, RUNNER, pairs)
     partners = res.get("partners", [])
     ppairs = [("(%s, %d%%nat)" % (vlib.clist(pr["order"], lambda i: "%d%%nat" % i), r), [a]) for pr in partners for r, a in enumerate(pr["answers"])]
